@@ -5,6 +5,7 @@ import DaskModel.Model.Percentile
 import DaskModel.Model.Masked
 import DaskModel.Model.RandomKeys
 import DaskModel.Model.Contraction
+import DaskModel.Model.ArrayExpr
 open Dask
 
 namespace ReduceDriver
@@ -287,6 +288,45 @@ def hCumsumBlocks : Handler := handler fun args =>
   | [xs] => do pure (.list ((cumsumBlocks 0 (← xs.toNats?)).map fun (a, b) => SExp.ofNats [a, b]))
   | _ => none
 
+/-! ### C30 -/
+open Dask.ArrayExpr in
+partial def toAE? : SExp → Option AE
+  | .list [.sym "leaf", d, c] => do pure (.leaf (← d.toInts?) (← c.toNats?))
+  | .list [.sym "neg", a] => do pure (.neg (← toAE? a))
+  | .list [.sym "add", a, b] => do pure (.add (← toAE? a) (← toAE? b))
+  | .list [.sym "slice", s, e, a] => do pure (.slice (← s.toNat?) (← e.toNat?) (← toAE? a))
+  | .list [.sym "rechunk", c, a] => do pure (.rechunk (← c.toNats?) (← toAE? a))
+  | .list [.sym "concat", a, b] => do pure (.concat (← toAE? a) (← toAE? b))
+  | .list [.sym "finalize", a] => do pure (.finalize (← toAE? a))
+  | _ => none
+
+open Dask.ArrayExpr in
+/-- chunks of every node, preorder -/
+def nodeChunks : AE → List (List Nat)
+  | e@(.leaf _ _) => [chunks e]
+  | e@(.neg a) => chunks e :: nodeChunks a
+  | e@(.add a b) => chunks e :: (nodeChunks a ++ nodeChunks b)
+  | e@(.slice _ _ a) => chunks e :: nodeChunks a
+  | e@(.rechunk _ a) => chunks e :: nodeChunks a
+  | e@(.concat a b) => chunks e :: (nodeChunks a ++ nodeChunks b)
+  | e@(.finalize a) => chunks e :: nodeChunks a
+
+/-- `(aeeval ast)` ↦ `(ok (values…) ((chunks…)…))` | `(invalid ((chunks…)…))` -/
+def hAeEval : Handler := handler fun args =>
+  match args with
+  | [e] => do
+    let e ← toAE? e
+    match Dask.ArrayExpr.den e with
+    | some xs => pure (.list [.sym "ok", SExp.ofInts xs, SExp.ofNatss (nodeChunks e)])
+    | none => pure (.list [.sym "invalid", SExp.ofNatss (nodeChunks e)])
+  | _ => none
+
+/-- `(aestep before after)` ↦ did one optimizer pass legally turn `before` into `after`? -/
+def hAeStep : Handler := handler fun args =>
+  match args with
+  | [a, b] => do pure (SExp.ofBool (Dask.ArrayExpr.parStep (← toAE? a) (← toAE? b)))
+  | _ => none
+
 end ReduceDriver
 
 def table : List (String × Handler) := [
@@ -297,6 +337,7 @@ def table : List (String × Handler) := [
   ("mareduce", ReduceDriver.hMaReduce), ("mazip", ReduceDriver.hMaZip), ("mascan", ReduceDriver.hMaScan),
   ("mafilled", ReduceDriver.hMaFilled), ("mawhere", ReduceDriver.hMaWhere),
   ("rngcalls", ReduceDriver.hRngCalls), ("rscalls", ReduceDriver.hRsCalls), ("choiceguard", ReduceDriver.hChoiceGuard),
-  ("contract", ReduceDriver.hContract), ("stackgroups", ReduceDriver.hStackGroups), ("cumsumblocks", ReduceDriver.hCumsumBlocks)]
+  ("contract", ReduceDriver.hContract), ("stackgroups", ReduceDriver.hStackGroups), ("cumsumblocks", ReduceDriver.hCumsumBlocks),
+  ("aeeval", ReduceDriver.hAeEval), ("aestep", ReduceDriver.hAeStep)]
 
 def main : IO Unit := runDriver table
